@@ -136,6 +136,8 @@ def run(rep, tier):
         clause_b(facts, rep)
         clause_c(facts, rep)
         clause_kind_predicates(facts, rep)
+        from . import c19 as _c19
+        _c19.clause_event_kind(facts, rep)    # each scalar event stores its value in its own kind (shared with C19)
         from . import c04
         c04.clause_d(facts, rep)   # numbers keep the value the text denotes only if dropped digits are remembered
         c04.clause_f(facts, rep)   # ... and an integer that fits uint64 is stored as an integer
